@@ -1,8 +1,9 @@
 // Command omaptrace drives omap.Map of the working tree.  One case per line:
 //
 //	M <cmp> <kind> <ops>  |  <item>;<item>;...      Map[int,int]
-//	T <cmp> <kind> <ops>  |  <item>;<item>;...      Map[string,string]; a key or value token is
-//	                                                [a-z]+ or "~" (the empty string = the zero value)
+//	T <cmp> <kind> <ops>  |  <item>;<item>;...      Map[string,string]; a key or value token is "~" (the
+//	                                                empty string = the zero value) or a run of letters/digits
+//	                                                and %XX escapes (any byte: %20 a blank, %5B "[", %3A ":")
 //
 // cmp (M)  n natural order (omap.New, i.e. cmp.Compare); every other one goes through omap.NewFunc:
 //
@@ -27,7 +28,9 @@
 //
 //	B.. D.. Q<s>         (M lines only) bulk Set / bulk Delete / probe of every key: see scale.go
 //
-// items  s,d: 0/1   c: -   g: <Get>,<GetOK value>,<ok>   l: n   k: nil | k,k,...   t: the string, ' ' as '_'
+// items  s,d: 0/1   c: -   g: <Get>,<GetOK value>,<ok>   l: n   k: nil | k,k,...
+//
+//	t: String() byte by byte: ' ' as '_', letters, digits and [ ] : - as they are, every other byte as %XX
 //
 //	iterator ops: state of every assigned register, '/'-separated, each <IsValid>,<Key>,<Value>
 //	sweeps: s:<k>=<v>,...:<IsValid>
@@ -150,18 +153,89 @@ var intCodec = codec[int]{
 	poison: -7777,
 }
 
+const hexDigits = "0123456789ABCDEF"
+
+func isAlnum(c byte) bool {
+	return (c >= 'a' && c <= 'z') || (c >= 'A' && c <= 'Z') || (c >= '0' && c <= '9')
+}
+
+func unhex(c byte) (int, bool) {
+	switch {
+	case c >= '0' && c <= '9':
+		return int(c - '0'), true
+	case c >= 'A' && c <= 'F':
+		return int(c-'A') + 10, true
+	}
+	return 0, false
+}
+
+// unescToken: %XX (upper-case hex) -> that byte, everything else as it is
+func unescToken(s string) string {
+	if strings.IndexByte(s, '%') < 0 {
+		return s
+	}
+	var sb strings.Builder
+	for i := 0; i < len(s); i++ {
+		if s[i] == '%' && i+2 < len(s) {
+			h, ok1 := unhex(s[i+1])
+			l, ok2 := unhex(s[i+2])
+			if ok1 && ok2 {
+				sb.WriteByte(byte(16*h + l))
+				i += 2
+				continue
+			}
+		}
+		sb.WriteByte(s[i])
+	}
+	return sb.String()
+}
+
+// escToken: letters and digits as they are, every other byte as %XX
+func escToken(s string) string {
+	var sb strings.Builder
+	for i := 0; i < len(s); i++ {
+		if c := s[i]; isAlnum(c) {
+			sb.WriteByte(c)
+		} else {
+			sb.WriteByte('%')
+			sb.WriteByte(hexDigits[c>>4])
+			sb.WriteByte(hexDigits[c&15])
+		}
+	}
+	return sb.String()
+}
+
+// escString: how String() is written into the trace: every byte is visible and none can be taken for a
+// separator of the trace line
+func escString(s string) string {
+	var sb strings.Builder
+	for i := 0; i < len(s); i++ {
+		switch c := s[i]; {
+		case c == ' ':
+			sb.WriteByte('_')
+		case isAlnum(c) || c == '[' || c == ']' || c == ':' || c == '-':
+			sb.WriteByte(c)
+		default:
+			sb.WriteByte('%')
+			sb.WriteByte(hexDigits[c>>4])
+			sb.WriteByte(hexDigits[c&15])
+		}
+	}
+	return sb.String()
+}
+
 var strCodec = codec[string]{
 	parse: func(s string) string {
 		if s == "~" {
 			return ""
 		}
-		return s
+		return unescToken(s)
 	},
 	show: func(s string) string {
 		if s == "" {
 			return "~"
 		}
-		return s
+		return escToken(s)
 	},
 	poison: "POISON",
 }
@@ -266,7 +340,7 @@ func run[K, V any](opsField string, zero bool, mk func() omap.Map[K, V], kc code
 					}
 				}
 			case 't':
-				items = append(items, strings.ReplaceAll(h.String(), " ", "_"))
+				items = append(items, escString(h.String()))
 			case 'F', 'L', 'S', 'n', 'p', 'e', 'N', 'P':
 				if len(arg) < 1 || arg[0] < '0' || arg[0] > '3' {
 					items = append(items, "?")
@@ -823,5 +897,9 @@ func main() {
 			// Iter.Seek, Seek of the absent key just above, and full First/Next and Last/Prev sweeps; explicit
 			// iterator sessions at the ends and in the middle
 			x.bigMaps()
+			// 7. round 4: observer; edit; the whole observer set (memo.go)
+			x.memoLines()
+			// 8. round 4: keys and values made of blanks, brackets, colons (values.go)
+			x.valueLines()
 		})
 }
